@@ -540,10 +540,14 @@ Definition failing_meths (gen : meth -> list mop) : list meth :=
 (* ---------------------------------------------------------------- comparison operators and accessors *)
 (* operator== / != / < as expressions over the two handles' ptr fields (x = a.ptr, y = b.ptr,
    read as addresses); operator bool / -> / * as three facts *)
-Inductive cside := CA | CB.
+(* CA / CB: a.ptr / b.ptr, compared as pointers (with the usual conversion to a common base
+   type, which adjusts a derived pointer to the base subobject); CAvoid / CBvoid: the same
+   operand cast to void*, which drops the static type and with it that adjustment *)
+Inductive cside := CA | CB | CAvoid | CBvoid.
 Inductive ckind := KEq | KNe | KLt | KLe | KGt | KGe.
 Inductive cexp := CCmp (k : ckind) (l r : cside) | CNot (e : cexp) | CUnk.
-Definition cside_val (x y : Z) (s : cside) : Z := match s with CA => x | CB => y end.
+Definition cside_val (x y : Z) (s : cside) : Z := match s with CA | CAvoid => x | CB | CBvoid => y end.
+Definition cside_plain (s : cside) : bool := match s with CA | CB => true | _ => false end.
 Fixpoint ceval (e : cexp) (x y : Z) : bool :=
   match e with
   | CCmp k l r =>
@@ -554,21 +558,25 @@ Fixpoint ceval (e : cexp) (x y : Z) : bool :=
   | CNot e' => negb (ceval e' x y)
   | CUnk => false
   end.
-Fixpoint cwf (e : cexp) : bool := match e with CUnk => false | CNot e' => cwf e' | CCmp _ _ _ => true end.
+Fixpoint cwf (e : cexp) : bool :=
+  match e with CUnk => false | CNot e' => cwf e' | CCmp _ l r => cside_plain l && cside_plain r end.
 Record cmpfacts := mkCmp {
   c_eq : cexp; c_ne : cexp; c_lt : cexp;
   a_bool : bool;      (* operator bool returns ptr != nullptr *)
   a_arrow : bool;     (* operator-> returns ptr *)
-  a_deref : bool      (* operator* returns *ptr *)
+  a_deref : bool;     (* operator* returns *ptr *)
+  c_mixed : bool      (* a comparison of handles of different related types (IntrusivePtr<Base> with
+                         IntrusivePtr<Derived>, either order) resolves to these operators, not to a
+                         built-in comparison of the two handles' operator bool() *)
 }.
-Definition model_cmp := mkCmp (CCmp KEq CA CB) (CCmp KNe CA CB) (CCmp KLt CA CB) true true true.
+Definition model_cmp := mkCmp (CCmp KEq CA CB) (CCmp KNe CA CB) (CCmp KLt CA CB) true true true true.
 Definition cmp_pts : list (Z * Z) := [(0, 0); (0, 1); (1, 0)].
 Definition cmp_ok (c : cmpfacts) : bool :=
   cwf (c_eq c) && cwf (c_ne c) && cwf (c_lt c) &&
   forallb (fun p => Bool.eqb (ceval (c_eq c) (fst p) (snd p)) (fst p =? snd p) &&
                     Bool.eqb (ceval (c_ne c) (fst p) (snd p)) (negb (fst p =? snd p)) &&
                     Bool.eqb (ceval (c_lt c) (fst p) (snd p)) (fst p <? snd p)) cmp_pts &&
-  a_bool c && a_arrow c && a_deref c.
+  a_bool c && a_arrow c && a_deref c && c_mixed c.
 
 (* ---------------------------------------------------------------- declared members and overload resolution *)
 (* every constructor / destructor / assignment operator / conversion operator / other method
@@ -664,3 +672,25 @@ Definition step_s sel tbl (s : sstate) (o : op) : sstate * bool :=
   if legal s o then (exec_op_s sel tbl s o, true) else (s, false).
 Definition run_s sel tbl (nh : nat) (l : list op) : sstate :=
   fold_left (fun s o => fst (step_s sel tbl s o)) l (init nh).
+
+(* free functions / operator templates declared in IntrusivePtr.h and RefCount.h (closed list):
+   comparison operator k as a template with nt type parameters taking (IntrusivePtr<T>, IntrusivePtr<U>)
+   (two = true) or (IntrusivePtr<T>, IntrusivePtr<T>) *)
+Inductive fdecl := FCmpOp (k : ckind) (nt : nat) (two : bool) | FAliasRef | FAliasRefCount | FOtherFree (n : nat).
+Definition ckind_eqb (a b : ckind) : bool :=
+  match a, b with KEq, KEq | KNe, KNe | KLt, KLt | KLe, KLe | KGt, KGt | KGe, KGe => true | _, _ => false end.
+Definition fdecl_eqb (a b : fdecl) : bool :=
+  match a, b with
+  | FCmpOp k n t, FCmpOp k' n' t' => ckind_eqb k k' && Nat.eqb n n' && Bool.eqb t t'
+  | FAliasRef, FAliasRef | FAliasRefCount, FAliasRefCount => true
+  | _, _ => false
+  end.
+Definition model_free : list fdecl :=
+  [FCmpOp KLt 2 true; FCmpOp KEq 2 true; FCmpOp KNe 2 true; FAliasRef; FAliasRefCount].
+Definition free_ok (l : list fdecl) : bool := list_eqb fdecl_eqb l model_free.
+
+(* behaviour before the repair (build/handoff/C08/fix-1.patch): with operators taking two handles
+   of the SAME type only, a comparison of handles of different types compared operator bool() *)
+Definition handle_eq_mixed_old (s : sstate) (a b : nat) : bool :=
+  Bool.eqb (match handle_ptr s a with Some _ => true | None => false end)
+           (match handle_ptr s b with Some _ => true | None => false end).
